@@ -78,7 +78,7 @@ def r18a(ctx):
                     detail = "paths are compared without a trailing separator: /data/x2 is treated as inside /data/x"
     (ctx.ok if ok else ctx.bad)("io.parquet.to_parquet:overwrite-guard", mod.loc(loop), "read_path.startswith(write_path) with trailing separators -> raise" if ok else detail)
     # ordering: rm after the loop
-    rms = [n for n in ast.walk(fn) if isinstance(n, ast.Call) and ast.unparse(n.func) == "fs.rm"]
+    rms = [n for n in ast.walk(fn) if isinstance(n, ast.Call) and isinstance(n.func, ast.Attribute) and n.func.attr == "rm"]
     if not rms:
         ctx.unclassified("io.parquet.to_parquet:rm-after-guard", mod.loc(fn), "no fs.rm call")
     for i, rm in enumerate(rms):
@@ -119,8 +119,19 @@ def r18c(ctx):
     )
     fp = model.cls("FusedParquetIO")
     task = model.method(fp, "_task", own=True).node
-    txt = ast.unparse(task)
-    good = "frag_to_table[1], frag_to_table[2]" in txt and "frag_to_table[3]" in txt and "frag_to_table[4]" in txt and "*to_pandas_args = " in txt
+    from sa.rules.util import pfind
+
+    good = False
+    for a, b in pfind("(V__, V_ftt, *V_rest) = V_e._filtered_task(V_i)", task):
+        ftt, rest = b["V_ftt"], b["V_rest"]
+        pair = pfind(f"({ftt}[1], {ftt}[2])", task)
+        cols = pfind(f"V_c = {ftt}[3]", task)
+        sch = pfind(f"V_s = {ftt}[4]", task)
+        for r in (x for x in ast.walk(task) if isinstance(x, ast.Return) and isinstance(x.value, ast.Tuple)):
+            el = [ast.unparse(e) for e in r.value.elts]
+            fwd = f"*{rest}" in el
+            order = bool(cols and sch) and cols[0][1]["V_c"] in el and sch[0][1]["V_s"] in el and el.index(cols[0][1]["V_c"]) < el.index(sch[0][1]["V_s"])
+            good = good or (bool(pair) and fwd and order)
     (ctx.ok if good else ctx.bad)("io.io.FusedParquetIO._task:destructure", fp.module.loc(task), "reads (fragment, filter) pairs, columns [3], schema [4] and forwards the pandas arguments" if good else "fused parquet task no longer reads fragment [1], filter [2], columns [3], schema [4] of the reader task")
     lm = model.method(fp, "_load_multiple_files", own=True).node
     params = [a.arg for a in lm.args.args]
